@@ -1338,7 +1338,9 @@ def _r3_close_codes(run):
                 if not (isinstance(fn, ast.Attribute) and fn.attr == 'close' and isinstance(fn.value, ast.Name) and fn.value.id == 'ws'):
                     continue
                 if not is_http:
-                    raise UnknownIdiom('%s closes the socket directly' % h.qual)
+                    # a generic-error handler that closes the socket itself: judged like the cleanup helper (configured code AND the
+                    # fallback for a rejected code around that very call), see _cleanup_codes
+                    continue
                 arg = _one_def(h, c.args[0]) if c.args else None
                 ok = False
                 if isinstance(arg, ast.Call) and len(arg.args) == 1:
@@ -1377,7 +1379,12 @@ def _adds_3000(p, g: Func) -> bool:
 
 
 def _cleanup_codes(run, model: WSModel, h: Func):
-    """generic errors: close(error_close_code), falling back to a valid constant code when close() rejects it"""
+    """generic errors (Exception, WebSocketDisconnected): close(error_close_code), falling back to a valid constant code when
+    close() - or the server - rejects it.  The clause is about every function on the default error path that closes the socket
+    with the configured code: the cleanup helper the handlers delegate to, and a handler that closes DIRECTLY.  A direct
+    ``ws.close(<configured code>)`` with no handler around it from which a fallback close is reachable is a violation
+    (seed s9-c17-3: `await self._ws_cleanup_on_error(ws)` -> `await ws.close(self.ws_options.error_close_code)` in
+    _python_error_handler: a server that refuses 1011 gets no close at all and the exception escapes the ASGI callable)."""
     p = run.project
     hc = cfg_of(h, p)
     targets = []
@@ -1385,17 +1392,28 @@ def _cleanup_codes(run, model: WSModel, h: Func):
         for c in n.calls():
             m = p.callee(h, c) if isinstance(c.func, ast.Attribute) and isinstance(c.func.value, ast.Name) and c.func.value.id == 'self' else None
             if isinstance(m, Func) and any(isinstance(a, ast.Name) and a.id == 'ws' for a in list(c.args) + [kw.value for kw in c.keywords]):
-                targets.append(m)
+                mp = [a for a in m.params() if a != 'self']
+                wsp = None
+                for i, a in enumerate(c.args):
+                    if isinstance(a, ast.Name) and a.id == 'ws' and i < len(mp):
+                        wsp = mp[i]
+                for kw in c.keywords:
+                    if isinstance(kw.value, ast.Name) and kw.value.id == 'ws' and kw.arg:
+                        wsp = kw.arg
+                if wsp is None:
+                    raise UnknownIdiom('%s: how %s receives the socket' % (h.qual, short(c)))
+                targets.append((m, wsp))
+            elif isinstance(c.func, ast.Attribute) and c.func.attr == 'close' and isinstance(c.func.value, ast.Name) and c.func.value.id == 'ws':
+                targets.append((h, 'ws'))
     if not targets:
-        raise UnknownIdiom('%s: no helper receiving the socket' % h.qual)
-    for m in targets:
+        raise UnknownIdiom('%s: neither closes the socket nor hands it to a helper' % h.qual)
+    for (m, wsp) in targets:
         done = run.__dict__.setdefault('_c17_done', set())
         if m.qual in done:
             continue
         done.add(m.qual)
         cfg = cfg_of(m, p)
         run.use_cfg(cfg)
-        wsp = [a for a in m.params() if a != 'self'][0]
         closes = [(n, c) for n in cfg.live_nodes() for c in n.calls() if isinstance(c.func, ast.Attribute) and c.func.attr == 'close'
                   and isinstance(c.func.value, ast.Name) and c.func.value.id == wsp]
         def configured_code(e):
